@@ -429,6 +429,18 @@ func (hn *harness) kill(g *group, mb member, verbose bool) error {
 	if err != nil {
 		return err
 	}
+	if own == nil {
+		// nothing of this run is in the history: fine while it had recorded nothing; not after status writes that returned
+		acked := 0
+		for _, c := range calls[:mb.K-1] {
+			if c.Done && c.Ret > 0 && in.lay.desc(c) == "write(history)" {
+				acked++
+			}
+		}
+		if acked > 0 {
+			fs = append(fs, finding{"after-kill/recorded-run-vanished/" + kd.pos, fmt.Sprintf("the killed run had written %d status record(s) (writes that returned), yet nothing of it is left in the history: whatever is reported for the DAG is not about this run; left behind: %s", acked, surv)})
+		}
+	}
 	if mb.K%7 == 3 && !mb.Prior {
 		sum["dag"], sum["prior"], sum["k"], sum["killed_at"], sum["position"] = def.Name, mb.Prior, mb.K, in.lay.short(call), kd.pos
 		sum["left_behind"], sum["differs_from_before_and_after"] = surv, nontrivial
